@@ -443,6 +443,30 @@ theorem snprintf_overflow_orig_witness :
   refine ⟨?_, ?_, ?_, ?_⟩ <;> decide
 
 
+/-- round 3, the return-value clause for EVERY entry point at once: whenever
+the engine finishes with `out`, each of vsprintf / sprintf / vsnprintf /
+snprintf (any size `n` the destination really has, also 0) / vfdprintf /
+fdprintf (no write error) returns the same number — the length of the whole
+output, i.e. for a truncating snprintf the count that WOULD have been written -/
+theorem entry_points_return_same_count (mem : List Char) (n : Nat) (fmt : List Char) (args : List Arg)
+    (out : List Char) (pc : Int) (err : Int) (h : printf fmt args = .done out pc) (hn : n ≤ mem.length) :
+    pc = out.length ∧
+    (vsprintf fmt args).map (·.2) = some (out.length : Int) ∧
+    (sprintf fmt args).map (·.2) = some (out.length : Int) ∧
+    (vsnprintf mem n fmt args).map (·.2) = some (out.length : Int) ∧
+    (snprintf mem n fmt args).map (·.2) = some (out.length : Int) ∧
+    (vfdprintf none err fmt args).map (·.2) = some (out.length : Int) ∧
+    (fdprintf none err fmt args).map (·.2) = some (out.length : Int) := by
+  have hc := printf_count _ _ _ _ h
+  subst hc
+  refine ⟨rfl, ?_, ?_, ?_, ?_, ?_, ?_⟩
+  · simp [vsprintf, h]
+  · simp [sprintf, vsprintf, h]
+  · rw [vsnprintf_spec mem n fmt args out _ h hn]; rfl
+  · rw [snprintf_spec mem n fmt args out _ h hn]; rfl
+  · simp [vfdprintf, h]
+  · simp [fdprintf, vfdprintf, h]
+
 /-! ## round 3: the domain of the ISO reference, exactly (audit item 1) -/
 
 /-- the generative grammar is EXACTLY the domain of `isoFormat` (the converse
